@@ -246,7 +246,7 @@ def run_one(modname, spec, idx, tmpdir, timeout, hashseed="0"):
 
 
 def write_replay(prop, viol):
-    d = os.path.join(VERIF, "replays")
+    d = os.environ.get("VERIF_REPLAY_DIR") or os.path.join(VERIF, "replays")
     os.makedirs(d, exist_ok=True)
     path = os.path.join(d, "%s-%s.json" % (prop, h(viol)))
     with open(path, "w") as f:
@@ -408,8 +408,9 @@ def _run(mod, modname, prop, tier, seed, args, tmpdir, t0):
         "violations": len(agg["violations"]),
     }
     if not args.replay:
-        os.makedirs(os.path.join(VERIF, "evidence"), exist_ok=True)
-        evpath = os.path.join(VERIF, "evidence", "%s.json" % prop)
+        evdir = os.environ.get("VERIF_EVIDENCE_DIR") or os.path.join(VERIF, "evidence")
+        os.makedirs(evdir, exist_ok=True)
+        evpath = os.path.join(evdir, "%s.json" % prop)
         with open(evpath + ".tmp", "w") as f:
             json.dump(ev, f, indent=1, default=repr)
         os.replace(evpath + ".tmp", evpath)
